@@ -266,7 +266,7 @@ func c19Run(in *hub.Instance, cs c19Case) (res c19Res) {
 		powers[0] -= d
 		powers[len(powers)-1] += d
 		for i := range powers {
-			in.Staking.Vals[i].Power = powers[i]
+			in.ValSetPower(i, powers[i])
 		}
 	}
 	payer := hub.HexAddr("relayer")
